@@ -113,6 +113,10 @@ type FV struct {
 	localMaps map[types.Object]bool
 	freshMapRefs map[string]bool // refs returned by make(map)/empty literals
 	closures  map[string]*ast.FuncLit
+	retSeen   map[token.Pos]bool // return statements the symbolic execution arrived at
+	covers    map[string][]Term  // per implication clause: (path condition && premise) at every point the clause is checked
+	coverCl   map[string]*Clause
+	coverOrd  []string
 	closureAccs map[string]*closureAcc
 	binds     []map[types.Object]Value
 	defers    []deferred
@@ -225,6 +229,39 @@ func (fv *FV) specTermO(e *Env, cl *Clause, sc *specCtx) Term {
 	return implies(and(facts...), t)
 }
 
+// notePremise records, for a clause of the form A ==> B, that A is evaluated
+// at this point under path condition pc. After the run, one cover obligation
+// per such clause states that A is satisfiable at one of these points at
+// least: a clause whose premise can never hold proves nothing.
+func (fv *FV) notePremise(e *Env, cl *Clause, sc *specCtx) {
+	if cl.Expr == nil || e.dead {
+		return
+	}
+	call, ok := ast.Unparen(cl.Expr).(*ast.CallExpr)
+	if !ok || len(call.Args) != 2 {
+		return
+	}
+	id, ok := call.Fun.(*ast.Ident)
+	if !ok || id.Name != "gh_implies" {
+		return
+	}
+	pcl := *cl
+	pcl.Expr = call.Args[0]
+	nErr := len(fv.specErrors)
+	t := fv.specTermA(e, &pcl, sc)
+	fv.specErrors = fv.specErrors[:nErr] // the clause itself reports its errors
+	if fv.covers == nil {
+		fv.covers = map[string][]Term{}
+		fv.coverCl = map[string]*Clause{}
+	}
+	key := cl.Kind + ":" + cl.Label
+	if _, seen := fv.coverCl[key]; !seen {
+		fv.coverCl[key] = cl
+		fv.coverOrd = append(fv.coverOrd, key)
+	}
+	fv.covers[key] = append(fv.covers[key], and(e.pc, t))
+}
+
 func (fv *FV) specFact(t Term) {
 	if fv.spec == nil || fv.spec.facts == nil || t.S == "true" || strings.Contains(t.S, "!q") {
 		return
@@ -313,6 +350,11 @@ func (eng *Engine) verifyFunc(u *FuncUnit) (rep *FuncReport) {
 			}
 		}
 	}
+	if u.C != nil {
+		for _, nw := range u.C.NoWrite {
+			fv.checkNoWrite(u, nw)
+		}
+	}
 	for _, uc := range u.unstatable {
 		fv.obls = append(fv.obls, &Obligation{Name: u.Name() + "#" + uc.label + "#scope", Kind: "scope", Func: u.Name(), Pos: fv.posStr(u.Decl.Pos()),
 			Desc:   fmt.Sprintf("contract clause %q (%s:%d) can be stated: it names the local %q, which %s does not define at function level", uc.text, filepath.Base(filepath.Dir(uc.file))+"/"+filepath.Base(uc.file), uc.line, uc.name, u.Key()),
@@ -384,6 +426,50 @@ func (fv *FV) run() {
 					}
 				}
 			}
+		}
+		return true
+	})
+	// a local assigned inside a function literal that is handed to a callee
+	// lives in a box: the callee may run the literal, so every opaque call
+	// may change it
+	ast.Inspect(u.Decl.Body, func(n ast.Node) bool {
+		call, ok := n.(*ast.CallExpr)
+		if !ok {
+			return true
+		}
+		for _, a := range call.Args {
+			lit, ok := ast.Unparen(a).(*ast.FuncLit)
+			if !ok {
+				continue
+			}
+			mark := func(x ast.Expr) {
+				id, ok := ast.Unparen(x).(*ast.Ident)
+				if !ok {
+					return
+				}
+				o, ok := fv.info.ObjectOf(id).(*types.Var)
+				if !ok || isPkgLevel(o) || isObjectType(o.Type()) || o.IsField() {
+					return
+				}
+				if o.Pos() >= lit.Pos() && o.Pos() < lit.End() {
+					return // the literal's own local or parameter
+				}
+				if o.Pos() < u.Decl.Pos() || o.Pos() >= u.Decl.End() {
+					return
+				}
+				fv.boxed[o] = true
+			}
+			ast.Inspect(lit.Body, func(m ast.Node) bool {
+				switch m := m.(type) {
+				case *ast.AssignStmt:
+					for _, l := range m.Lhs {
+						mark(l)
+					}
+				case *ast.IncDecStmt:
+					mark(m.X)
+				}
+				return true
+			})
 		}
 		return true
 	})
@@ -512,6 +598,30 @@ func (fv *FV) run() {
 		}
 		fv.checkExit(ex, k)
 	}
+	// a return statement the execution never arrived at (its path was cut
+	// because a branch condition folded to a constant) carries no obligations:
+	// say so instead of silently proving nothing about it
+	if fv.eng.reachNotes {
+		var walk func(n ast.Node) bool
+		walk = func(n ast.Node) bool {
+			switch n := n.(type) {
+			case *ast.FuncLit:
+				return false
+			case *ast.ReturnStmt:
+				if !fv.retSeen[n.Pos()] {
+					fv.obls = append(fv.obls, &Obligation{Name: fmt.Sprintf("%s#reach.never.L%d", u.Name(), fv.eng.fset.Position(n.Pos()).Line), Kind: "reach", Func: u.Name(), Pos: fv.posStr(n.Pos()),
+						Desc: "the symbolic execution never arrives at this return (informational)", Expect: "not-unsat", upto: fv.s.mark(), goal: tTrue})
+				}
+			}
+			return true
+		}
+		ast.Inspect(u.Decl.Body, walk)
+	}
+	for _, key := range fv.coverOrd {
+		cl := fv.coverCl[key]
+		fv.obls = append(fv.obls, &Obligation{Name: u.Name() + "#cover:" + cl.Label, Kind: "cover", Func: u.Name(), Pos: fv.posStr(u.Decl.Pos()),
+			Desc: fmt.Sprintf("the premise of %q can hold where the clause is checked (a clause whose premise never holds proves nothing; must NOT be refutable)", cl.Text), Expect: "not-unsat", upto: fv.s.mark(), goal: not(or(fv.covers[key]...))})
+	}
 	if len(exitPCs) > 0 {
 		fv.obls = append(fv.obls, &Obligation{Name: u.Name() + "#canary.exit", Kind: "canary", Func: u.Name(), Pos: fv.posStr(u.Decl.Pos()),
 			Desc: "some return is reachable under the assumptions (must NOT be refutable)", Expect: "not-unsat", upto: fv.s.mark(), goal: not(or(exitPCs...))})
@@ -583,11 +693,13 @@ func (fv *FV) checkExit(ex *Exit, k int) {
 	at := &ast.Ident{NamePos: ex.pos}
 	line := fv.eng.fset.Position(ex.pos).Line
 	for _, cl := range u.C.Ensures {
+		fv.notePremise(ex.env, cl, &specCtx{old: fv.entry, bind: bind, results: ex.results, preAlloc: fv.entry.alloc})
 		t := fv.specTermO(ex.env, cl, &specCtx{old: fv.entry, bind: bind, results: ex.results, preAlloc: fv.entry.alloc})
 		fv.obligeNamed(ex.env, "post", fmt.Sprintf("post:%s@return%d", cl.Label, k+1), at,
 			fmt.Sprintf("postcondition %q at return on line %d", cl.Text, line), t)
 	}
 	for _, cl := range u.C.EnsuresLocal {
+		fv.notePremise(ex.env, cl, &specCtx{old: fv.entry, bind: bind, results: ex.results, preAlloc: fv.entry.alloc, lenient: true})
 		t := fv.specTermO(ex.env, cl, &specCtx{old: fv.entry, bind: bind, results: ex.results, preAlloc: fv.entry.alloc, lenient: true})
 		fv.obligeNamed(ex.env, "post", fmt.Sprintf("post:%s@return%d", cl.Label, k+1), at,
 			fmt.Sprintf("postcondition over locals %q at return on line %d", cl.Text, line), t)
@@ -744,7 +856,7 @@ func (eng *Engine) discharge(fv *FV) {
 			if eng.keepSMT {
 				os.WriteFile(filepath.Join(dir, fmt.Sprintf("%03d_%s.smt2", i, strings.ReplaceAll(sanitize(o.Name), "/", "_"))), []byte(text), 0o644)
 			}
-			if o.Kind == "canary" || o.Kind == "reach" {
+			if o.Kind == "canary" || o.Kind == "reach" || o.Kind == "cover" {
 				// a canary must NOT be refutable: a short run that does not answer unsat is a pass
 				r := runOne(context.Background(), solvers[0], dir, fmt.Sprintf("q%03d", i), text, 2)
 				o.Status, o.Solver, o.Secs, o.Output = r.Status, r.Solver, r.Secs, r.Output
@@ -798,4 +910,70 @@ func (eng *Engine) discharge(fv *FV) {
 func isNilNode(n ast.Node) bool {
 	defer func() { recover() }()
 	return n == nil || !n.Pos().IsValid() && false
+}
+
+// checkNoWrite discharges a `nowrite T.f` clause syntactically: no assignment,
+// increment or address-taking in the body targets field f of a T. (Writes by
+// callees are outside this check: it is a frame on the function's own
+// statements.) The result is an obligation like any other.
+func (fv *FV) checkNoWrite(u *FuncUnit, spec string) {
+	parts := strings.SplitN(spec, ".", 2)
+	o := &Obligation{Name: u.Name() + "#nowrite:" + spec, Kind: "frame", Func: u.Name(), Pos: fv.posStr(u.Decl.Pos()),
+		Desc: fmt.Sprintf("no statement of %s assigns field %s", u.Key(), spec), Expect: "unsat", Status: "unsat", Solver: "syntactic", preset: true}
+	if len(parts) != 2 {
+		o.Status, o.Output = "error", "nowrite needs Type.field"
+		fv.obls = append(fv.obls, o)
+		return
+	}
+	isTarget := func(x ast.Expr) bool {
+		for {
+			switch y := x.(type) {
+			case *ast.ParenExpr:
+				x = y.X
+				continue
+			case *ast.IndexExpr: // x.f[i] = ... writes through f, not f itself
+				return false
+			}
+			break
+		}
+		se, ok := x.(*ast.SelectorExpr)
+		if !ok || se.Sel.Name != parts[1] {
+			return false
+		}
+		sel, ok := fv.info.Selections[se]
+		if !ok || sel.Kind() != types.FieldVal {
+			return false
+		}
+		t := deref(sel.Recv())
+		if n, ok := types.Unalias(t).(*types.Named); ok {
+			return n.Obj().Name() == parts[0]
+		}
+		return false
+	}
+	found := token.NoPos
+	ast.Inspect(u.Decl.Body, func(n ast.Node) bool {
+		switch s := n.(type) {
+		case *ast.AssignStmt:
+			for _, l := range s.Lhs {
+				if isTarget(l) {
+					found = l.Pos()
+				}
+			}
+		case *ast.IncDecStmt:
+			if isTarget(s.X) {
+				found = s.X.Pos()
+			}
+		case *ast.UnaryExpr:
+			if s.Op == token.AND && isTarget(s.X) {
+				found = s.X.Pos()
+			}
+		}
+		return found == token.NoPos
+	})
+	if found != token.NoPos {
+		o.Status = "sat"
+		o.Pos = fv.posStr(found)
+		o.Output = "the field is assigned (or its address taken) at " + fv.posStr(found)
+	}
+	fv.obls = append(fv.obls, o)
 }
